@@ -147,8 +147,9 @@ def rtdc_copy(src_h5file: h5py.Group,
                                 src_name=feat,
                                 dst_loc=dst_h5file["events"],
                                 recursive=True)
-                if scalar_feature_exists(feat):
+                if scalar_feature_exists(feat) and dst.size:
                     # complement min/max values for all scalar features
+                    # (there are no such values for empty features)
                     for ufunc, attr in [(np.nanmin, "min"),
                                         (np.nanmax, "max"),
                                         (np.nanmean, "mean"),
@@ -255,13 +256,14 @@ def h5ds_copy(src_loc, src_name, dst_loc, dst_name=None,
     dst_name = dst_name or src_name
     src = src_loc[src_name]
     if isinstance(src, h5py.Dataset):
-        if ensure_compression and not is_properly_compressed(src):
+        if (ensure_compression
+                and not is_properly_compressed(src)
+                # Empty datasets (this sometimes happens with logs) cannot
+                # be compressed; they are copied as-is below.
+                and src.shape[0] != 0):
             # Chunk size larger than dataset size is not allowed
             # in h5py's `make_new_dset`.
-            if src.shape[0] == 0:
-                # Ignore empty datasets (This sometimes happens with logs).
-                return
-            elif src.chunks and src.chunks[0] > src.shape[0]:
+            if src.chunks and src.chunks[0] > src.shape[0]:
                 # The chunks in the input file are larger than the dataset
                 # shape. So we set the chunks to the shape. Here, we only
                 # check for the first axis (event count for feature data),
